@@ -29,7 +29,9 @@ VARIABLES
   \* @type: Set(Int);
   saved,
   \* @type: Int -> Int;
-  scal
+  scal,
+  \* @type: Int -> Bool;
+  limbo
 
 INSTANCE Lifecycle WITH NIds <- 6, NScal <- 3
 
@@ -41,11 +43,16 @@ BadStartAgain(i) ==
   /\ alive[i] /\ started[i] /\ ~restored[i]
   /\ nmsg' = [nmsg EXCEPT ![i] = @ + 1]
   /\ entropy' = [entropy EXCEPT ![i] = @ + 1]
-  /\ UNCHANGED <<alive, started, finished, gaveMsg, gaveKey, restored, nkey, origin, saved, scal>>
+  /\ UNCHANGED <<alive, started, finished, gaveMsg, gaveKey, restored, nkey, origin, saved, scal, limbo>>
 BadNext == LNext \/ \E i \in Ids : BadStartAgain(i)
 
 (* second guard: a start() that replaces the scalar of a restored instance breaks ScalarNeverChanges *)
 BadRescal(i) == /\ alive[i] /\ restored[i] /\ scal' = [scal EXCEPT ![i] = 1]
-                /\ UNCHANGED <<alive, started, finished, gaveMsg, gaveKey, restored, nmsg, nkey, entropy, origin, saved>>
+                /\ UNCHANGED <<alive, started, finished, gaveMsg, gaveKey, restored, nmsg, nkey, entropy, origin, saved, limbo>>
 BadNext2 == LNext \/ \E i \in Ids : BadRescal(i)
+
+(* third guard: a failed start() that nevertheless leaves a scalar behind breaks the induction (LimboHasNothing) *)
+BadLimbo(i) == /\ alive[i] /\ ~started[i] /\ limbo' = [limbo EXCEPT ![i] = TRUE] /\ scal' = [scal EXCEPT ![i] = 1]
+               /\ UNCHANGED <<alive, started, finished, gaveMsg, gaveKey, restored, nmsg, nkey, entropy, origin, saved>>
+BadNext3 == LNext \/ \E i \in Ids : BadLimbo(i)
 =============================================================================
